@@ -160,6 +160,14 @@ def _loss_sites(cls: Cls) -> List[Tuple[Fn, ast.Call]]:
 
 
 def _check_target(ck: Check, tb: TermBuilder, reg: AlgoRegistry, fn: Fn, site: ast.AST, T: Poly, pred: Optional[Poly], label: str) -> None:
+    from ..terms import expand_phi
+
+    alts = expand_phi(tb, T)
+    for i, Ta in enumerate(alts):
+        _check_target_alt(ck, tb, reg, fn, site, Ta, pred, label if len(alts) == 1 else f"{label} (variant {i + 1}/{len(alts)})")
+
+
+def _check_target_alt(ck: Check, tb: TermBuilder, reg: AlgoRegistry, fn: Fn, site: ast.AST, T: Poly, pred: Optional[Poly], label: str) -> None:
     cname = reg.cls.name
     D = role_atoms(tb, T, "done", reg)
     ck.ob("C08.2", fn, site, bool(D), f"{label}: the target depends on the batch's done flag",
@@ -172,6 +180,10 @@ def _check_target(ck: Check, tb: TermBuilder, reg: AlgoRegistry, fn: Fn, site: a
           f"{label}: with done=1 no term of the target depends on the next observation",
           detail=("surviving next_obs-dependent monomial(s): " + " ; ".join(x[:160] for x in leak[:2])) if leak else
           f"done atoms {sorted(D)} substituted by 1: next_obs terms cancel")
+    R1 = role_atoms(tb, T1, "reward", reg)
+    ck.ob("C08.2", fn, site, len(R1) == 1 and T1 == Poly.atom(next(iter(R1))),
+          f"{label}: with done=1 the target is exactly the reward",
+          detail=f"target at done=1: {T1.key()[:200]}")
     T0 = T.subst({k: Poly.const(0) for k in D})
     # shape: reward + gamma^k * Q
     R = role_atoms(tb, T0, "reward", reg)
@@ -501,8 +513,12 @@ def _resolve_pairs(repo: Repo, reg: AlgoRegistry, fn: Fn, e_iter: ast.AST, t_ite
             if m is not fn and m is not learn:
                 sites += [c for c in calls_in(m.node) if call_name(c) == f"self.{fn.name}"]
     if e_direct is not None and t_direct is not None:
-        for c in sites or [None]:
-            out.append((e_direct, t_direct, e_kind, t_kind, learn, c if c is not None else learn.node))
+        for c in sites:
+            out.append((e_direct, t_direct, e_kind, t_kind, learn, c))
+        if not sites:
+            ck.ob("C08.4", learn, learn.node, False, f"{reg.cls.name}: learn() invokes the soft update `{fn.name}`",
+                  detail=f"no call of self.{fn.name}() in learn() or its helpers: the target network `{t_direct}` is never updated",
+                  construct=f"{reg.cls.name}: call of {fn.name} from learn")
         return out
     # parameters bound at call sites
     from ..terms import bind_arg
@@ -599,3 +615,45 @@ def _on_every_path(ck: Check, reg: AlgoRegistry, learn: Fn, lcfg: CFG, site_fn: 
               f"{cname}: every normal path through learn() performs the soft update of `{t_attr}`",
               detail="there is a path from the entry of learn() to a return that bypasses the soft update",
               construct=f"{cname}: soft update {e_attr}->{t_attr} on all paths")
+
+
+_D = "agilerl/algorithms/dqn.py"
+_C = "agilerl/algorithms/cqn.py"
+_DD = "agilerl/algorithms/ddpg.py"
+_T3 = "agilerl/algorithms/td3.py"
+_MA = "agilerl/algorithms/maddpg.py"
+_MT = "agilerl/algorithms/matd3.py"
+_R = "agilerl/algorithms/dqn_rainbow.py"
+VARIANTS = [
+    ("dqn-no-mask", _D, "y_j = rewards + self.gamma * q_target * (1 - dones)", "y_j = rewards + self.gamma * q_target", "fire", "C08.2"),
+    ("dqn-mask-inverted", _D, "y_j = rewards + self.gamma * q_target * (1 - dones)", "y_j = rewards + self.gamma * q_target * dones", "fire", "C08"),
+    ("dqn-mask-on-reward", _D, "y_j = rewards + self.gamma * q_target * (1 - dones)", "y_j = (rewards + self.gamma * q_target) * (1 - dones)", "fire", "C08.2"),
+    ("dqn-commuted-ok", _D, "y_j = rewards + self.gamma * q_target * (1 - dones)", "not_done = 1.0 - dones\n            y_j = not_done * q_target * self.gamma + rewards", "silent", None),
+    ("dqn-where-ok", _D, "y_j = rewards + self.gamma * q_target * (1 - dones)", "y_j = rewards + torch.where(dones.bool(), torch.zeros_like(q_target), self.gamma * q_target)", "silent", None),
+    ("dqn-eval-net-target", _D, "q_target = self.actor_target(next_obs).max(axis=1)[0].unsqueeze(1)", "q_target = self.actor(next_obs).max(axis=1)[0].unsqueeze(1)", "fire", "C08.1"),
+    ("dqn-obs-not-next", _D, "q_target = self.actor_target(next_obs).max(axis=1)[0].unsqueeze(1)", "q_target = self.actor_target(obs).max(axis=1)[0].unsqueeze(1)", "fire", "C08.1"),
+    ("dqn-tau-swapped", _D, "self.tau * eval_param.data + (1.0 - self.tau) * target_param.data", "(1.0 - self.tau) * eval_param.data + self.tau * target_param.data", "fire", "C08.5"),
+    ("dqn-lerp-form-ok", _D, "self.tau * eval_param.data + (1.0 - self.tau) * target_param.data", "target_param.data + self.tau * (eval_param.data - target_param.data)", "silent", None),
+    ("dqn-soft-update-removed", _D, "        # soft update target network\n        self.soft_update()\n        return loss.item()", "        return loss.item()", "fire", "C08.4"),
+    ("dqn-soft-update-conditional", _D, "        # soft update target network\n        self.soft_update()\n        return loss.item()", "        if self.double:\n            self.soft_update()\n        return loss.item()", "fire", "C08.4"),
+    ("dqn-vacuous-update", _D, "self.param_vals.values(True, True), self.target_params.values(True, True)", "self.actor.parameters(), self.actor_target.parameters()", "fire", "C08.6"),
+    ("dqn-gamma-squared", _D, "y_j = rewards + self.gamma * q_target * (1 - dones)", "y_j = rewards + self.gamma * self.tau * q_target * (1 - dones)", "fire", "C08.1"),
+    ("cqn-no-detach", _C, "self.actor_target(next_states).detach().max(axis=1)[0].unsqueeze(1)", "self.actor_target(next_states).max(axis=1)[0].unsqueeze(1)", "fire", "C08.3"),
+    ("cqn-no-mask", _C, "q_target = rewards + self.gamma * q_target_next * (1 - dones)", "q_target = rewards + self.gamma * q_target_next", "fire", "C08.2"),
+    ("ddpg-critic-not-target", _DD, "q_value_next_state = self.critic_target(next_obs, next_actions)", "q_value_next_state = self.critic(next_obs, next_actions)", "fire", "C08.1"),
+    ("ddpg-actor-not-target", _DD, "next_actions = self.actor_target(next_obs)", "next_actions = self.actor(next_obs)", "fire", "C08.1"),
+    ("ddpg-crosswired-soft-update", _DD, "self.soft_update(self.critic, self.critic_target)", "self.soft_update(self.actor, self.critic_target)", "fire", "C08.4"),
+    ("ddpg-missing-critic-update", _DD, "            self.soft_update(self.critic, self.critic_target)\n", "", "fire", "C08.4"),
+    ("ddpg-mask-dropped", _DD, "y_j = rewards + ((1 - dones) * self.gamma * q_value_next_state)", "y_j = rewards + (self.gamma * q_value_next_state)", "fire", "C08.2"),
+    ("td3-one-critic-target", _T3, "q_value_next_state = torch.min(q_value_next_state_1, q_value_next_state_2)", "q_value_next_state = torch.min(q_value_next_state_2, q_value_next_state_2)", "fire", "C08.1"),
+    ("td3-target-outside-nograd", _T3, "            q_value_next_state_2 = self.critic_target_2(next_states, next_actions)\n\n            q_value_next_state = torch.min",
+     "            pass\n        q_value_next_state_2 = self.critic_target_2(next_states, next_actions)\n        if True:\n            q_value_next_state = torch.min", "fire", "C08.3"),
+    ("td3-soft-update-swapped-args", _T3, "self.soft_update(self.critic_2, self.critic_target_2)", "self.soft_update(self.critic_target_2, self.critic_2)", "fire", "C08.4"),
+    ("maddpg-wrong-agent-done", _MA, "rewards[agent_id] + (1 - dones[agent_id]) * self.gamma * q_value_next_state", "rewards[agent_id] + self.gamma * q_value_next_state", "fire", "C08.2"),
+    ("maddpg-zip-misaligned", _MA, "        for actor, actor_target, critic, critic_target in zip(\n            self.actors, self.actor_targets, self.critics, self.critic_targets\n        ):",
+     "        for actor, actor_target, critic, critic_target in zip(\n            self.actors, self.critic_targets, self.critics, self.actor_targets\n        ):", "fire", "C08.4"),
+    ("matd3-min-dropped", _MT, "rewards[agent_id] + (1 - dones[agent_id]) * self.gamma * q_value_next_state", "rewards[agent_id] + (1 - dones[agent_id]) * q_value_next_state", "fire", "C08.1"),
+    ("rainbow-no-mask", _R, "t_z = rewards + (1 - dones) * gamma * self.support", "t_z = rewards + gamma * self.support", "fire", "C08.2"),
+    ("rainbow-eval-dist", _R, "target_q_dist = self.actor_target(next_states, q=False)", "target_q_dist = self.actor(next_states, q=False)", "fire", "C08.1"),
+    ("rainbow-soft-update-before-step", _R, "        # soft update target network\n        self.soft_update()\n        self.actor.reset_noise()", "        self.actor.reset_noise()", "fire", "C08.4"),
+]
